@@ -31,6 +31,8 @@ func init() {
 		"go/parser.ParseFile":                                  extParseFile,
 		prettyPkg + ".Sprint":                                  extPrettySprint,
 		"encoding/json.Marshal":                                extJSONMarshal,
+		"encoding/json.newScanner":                             extJSONNewScanner,
+		"encoding/json.freeScanner":                            func(fr *frame, args []value) value { return nil },
 		yamlPkg + ".Unmarshal":                                 extYAMLUnmarshal,
 		yamlPkg + ".MarshalWithOptions":                        extYAMLMarshal,
 		yamlPkg + ".Indent":                                    func(fr *frame, args []value) value { return (*ssaFuncNil)(nil).v() },
@@ -42,6 +44,19 @@ func init() {
 	} {
 		externals[k] = v
 	}
+}
+
+// extJSONNewScanner: encoding/json.newScanner without the sync.Pool.
+func extJSONNewScanner(fr *frame, args []value) value {
+	i := fr.i
+	T := i.namedType("encoding/json", "scanner")
+	p := newStruct(T)
+	m := findMethod(i, types.NewPointer(T), "reset")
+	if m == nil {
+		i.abort("encoding/json: scanner.reset not found")
+	}
+	call(i, fr, fr.callpos, m, []value{p})
+	return p
 }
 
 type ssaFuncNil struct{}
